@@ -249,8 +249,21 @@ def run(case, choices):
                         "waits, so readable connections starve and the CPU burns; %s" % (at, nrc, wc, nf, ctx()))
         # ---- bounded liveness, evaluated only for what happened before TERM and outside the at-capacity regime
         for c, spec in zip(clients, case["clients"]):
-            if termed or state["spin"] is not None:
+            if termed:
                 break
+            if state["spin"] is not None:
+                # the at-capacity regime of the known finding: request liveness is not judged there, but the spinning loop still runs its
+                # keep-alive sweep every iteration, so an idle kept-alive connection must still be closed (that is what frees capacity again)
+                st_ = c.stream
+                if c.script and c.script[-1][0] == "await-eof" and not spec["silent"] and c.responses and c.responses[-1]["complete"] \
+                        and len(c.responses) == sum(1 for o in c.script if o[0] == "recv") and c.responses[-1]["at"] is not None \
+                        and st_ is not None and not st_.eof and not st_.rst and not st_.closed and c.eof_at is None \
+                        and sim.now >= c.responses[-1]["at"] + ka + 3.0 and c.script[-1][1] >= ka + 3.0 \
+                        and b"keep-alive" in c.responses[-1].get("headers", {}).get(b"connection", b"").lower():
+                    res.violate("C13:keepalive-not-closed:at-capacity", "client %s: the idle kept-alive connection is still open %.1f s after "
+                                "its last response (keepalive=%s) while the worker sits at capacity: capacity is never freed; %s"
+                                % (c.name, sim.now - c.responses[-1]["at"], ka, ctx()))
+                continue
             if c.stream is not None and c.stream.peer in sim.stolen:
                 continue          # taken by a (not simulated) sibling worker sharing the listener
             sends = [e for e in c.log if e[1] == "sent"]
@@ -290,6 +303,23 @@ def run(case, choices):
                                     "client %s: request %d was sent at t=%.2f on a connection the server had just kept alive (response %d at "
                                     "t=%.2f, keepalive=%s) and the server closed it without answering; log=%r; %s"
                                     % (c.name, i_, send_times[i_], i_ - 1, prev["at"], ka, c.log[-6:], ctx()))
+            # ... also when its head arrives in two parts: the client finds the connection closed while it is still sending
+            if regime == "under-capacity":
+                for j_, e_ in enumerate(c.log):
+                    if e_[1] not in ("send-failed", "send-on-reset"):
+                        continue
+                    nresp = sum(1 for x in c.log[:j_] if x[1] == "response")
+                    ridx = max([k for k, x in enumerate(c.log[:j_]) if x[1] == "response"], default=None)
+                    if ridx is None or nresp == 0 or nresp > len(c.responses):
+                        continue
+                    prev = c.responses[nresp - 1]
+                    part = [x for x in c.log[ridx + 1:j_] if x[1] == "sent"]
+                    kept = prev["complete"] and prev["at"] is not None and b"keep-alive" in prev.get("headers", {}).get(b"connection", b"").lower()
+                    if kept and part and part[0][0] <= prev["at"] + ka - 0.5:
+                        res.violate("C13:pending-request-dropped:split-head",
+                                    "client %s: the first part of its next request was sent at t=%.2f on a connection the server had kept alive "
+                                    "(response at t=%.2f, keepalive=%s); when the rest followed at t=%.2f the server had closed the connection; "
+                                    "log=%r; %s" % (c.name, part[0][0], prev["at"], ka, e_[0], c.log[-6:], ctx()))
             # idle keep-alive connections are closed once the keep-alive time has passed
             reached = any(e[1] in ("eof", "no-eof") for e in c.log)
             if c.script and c.script[-1][0] == "await-eof" and reached and not spec["silent"] and c.responses \
